@@ -81,6 +81,19 @@ impl Monitor for C05 {
 
     fn run_case(&self, _index: u64, seed: u64, tier: Tier, rep: &mut CaseReport) {
         let mut rng = Rng::new(seed);
+        if _index % 16 == 15 {
+            // small-scope exhaustive: every execution of a tiny executor against the self-consistent vectors
+            let (ex, tiny) = crate::monitors::c04::gen_tiny_executor(&mut rng);
+            let kinds: Vec<Kind> = ex.cbs.iter().map(|c| if c.timer { Kind::Timer } else if rng.chance(1, 2) { Kind::Polled(c.prio as i32) } else { Kind::PolledUnknown }).collect();
+            rep.sample = Some(jobj! {"exhaustive_small_scope" => true, "executor" => ex.to_json(), "kinds_presented" => Json::Arr(kinds.iter().map(|k| k.to_json()).collect())});
+            for (name, use_bw) in [("ros2::rr::rta_subchain", false), ("ros2::bw::rta_subchain", true)] {
+                if let Some((v, _)) = self_consistent_bounds(&ex, &kinds, use_bw, 300, rep) {
+                    let b: Vec<Option<u64>> = v.iter().map(|x| Some(*x)).collect();
+                    crate::monitors::c04::exhaustive_compare("C05", name, &ex, &tiny, &b, rep);
+                }
+            }
+            return;
+        }
         let ex = gen_executor(&mut rng, true);
         let limit = 1500;
         // how each callback is presented to the analysis
